@@ -247,6 +247,7 @@ fn dispatch(name: &str, a: &Args) -> bool {
     "c14_dirs" => c14::p_c14_dirs(a.u8("depth"), a.u64("a"), a.u8("k")),
     "bmoc_op_search" => bmoc_search(a),
     "bmoc_pack_search" => pack_search(a),
+    "c19_cell" => c19::p_c19_cell(a.u8("depth"), a.u64("h"), a.u64("a") as u16, a.u64("b") as u16),
     _ => return false,
   }
   true
